@@ -647,7 +647,7 @@ func genImmediate(rng *lib.Rand, n int) []string {
 }
 
 // exhaustive: every sequence of the given depth over a small alphabet of calls and packets (two MACs on
-// one IPv4 address, one offer); W tokens are inserted after every StartHunt that starts a loop
+// one IPv4 address, one offer, one refused write); W tokens are inserted after every StartHunt that starts a loop
 func genExhaustive(depth int, emit func([]string)) {
 	m1, m2 := macs[0], macs[1]
 	alpha := []string{
@@ -656,6 +656,7 @@ func genExhaustive(depth int, emit func([]string)) {
 		"R,1," + m2 + "," + m2 + "," + ipB + ",000000000000," + ipRouter,
 		"O," + m1 + "," + ipA,
 		"R,1," + m1 + "," + m1 + "," + ipZero + ",000000000000," + ipB,
+		"F,1",
 	}
 	idx := make([]int, depth)
 	for {
@@ -1059,7 +1060,7 @@ func main() {
 		jobs <- append([]string{ct}, script...)
 	}
 	if r.Thorough() {
-		genExhaustive(4, func(toks []string) { jobs <- append([]string{std}, toks...) })
+		genExhaustive(5, func(toks []string) { jobs <- append([]string{std}, toks...) })
 	} else {
 		genExhaustive(2, func(toks []string) { jobs <- append([]string{std}, toks...) })
 	}
